@@ -246,7 +246,7 @@ func c05Property(rt *rapid.T, col *stats.Collector, ampOpen bool, maxDepth int, 
 		seed := rapid.Uint64Range(0, 1<<20).Draw(rt, "state_seed")
 		st := gen.SeededState(seed, c05StateCfg)
 		paths := append(gen.AllPaths(c05StateCfg), gen.ROPaths("F")...)
-		g := gen.NewXG(rt, gen.ExprCfg{Paths: paths, Recv: "F", FloatConcat: true, Hostile: true, Builtins: true, StrFuncs: true, Chains: true, ComputedIndex: true})
+		g := gen.NewXG(rt, gen.ExprCfg{Paths: paths, Recv: "F", FloatConcat: true, Hostile: true, Builtins: true, StrFuncs: true, Chains: true, ComputedIndex: true, MixedSign: true})
 		depth := rapid.IntRange(1, maxDepth).Draw(rt, "depth")
 		expr := g.OfType(typ, depth)
 		labels := []string{"type:" + typName, fmt.Sprintf("depth:%d", depth)}
